@@ -18,7 +18,7 @@ import xonsh.history.json as hj
 import xonsh.lib.lazyjson as xlj
 from xonsh.built_ins import XSH
 
-from vf.api import Obligation, Skip, concretely, viol
+from vf.api import Obligation, Skip, concretely, gappy, viol
 
 STUBS = [
     "open (json.py, lazyjson.py), os.replace/fdopen, tempfile.mkstemp -> in-memory files; text files are UTF-8 byte buffers behind a "
@@ -111,8 +111,9 @@ def _install(fs, histcontrol):
             return p in fs.files
 
     class O:
-        path = P
+        path = gappy(P, "os_path")
         replace = staticmethod(fs.replace)
+        rename = staticmethod(fs.replace)  # POSIX rename == replace
         fdopen = staticmethod(fs.fdopen)
         environ = {}
 
@@ -124,9 +125,9 @@ def _install(fs, histcontrol):
         def unlink(p):
             fs.files.pop(p, None)
 
-    hj.os = O
+    hj.os = gappy(O, "os")
     hj.open = fs.open
-    hj.tempfile = type("T", (), {"mkstemp": staticmethod(fs.mkstemp)})
+    hj.tempfile = gappy(type("tempfile", (), {"mkstemp": staticmethod(fs.mkstemp)}))
     hj.time = _Time
     hj.print = lambda *a, **k: None
     xlj.open = fs.open
